@@ -232,6 +232,7 @@ func c04RunInBubble(t *testing.T, c c04Case, res *vfResult) {
 			before[p] = invalid(p)
 		}
 		copies := map[int]int{} // peer -> copies it sent
+		msgID := ""
 		var pubErr error
 		published := make(chan struct{})
 		topic, other, th := topicA, topicB, thA
@@ -246,6 +247,7 @@ func c04RunInBubble(t *testing.T, c c04Case, res *vfResult) {
 		} else {
 			seq++
 			pm := vfSignedMsg(vfPeer(35), topic, seq, []byte(data))
+			msgID = n.ps.idGen.ID(&Message{Message: pm})
 			if m.Twin {
 				// both messages are handed to the validation front end back to back, before any worker runs
 				seq++
@@ -323,7 +325,20 @@ func c04RunInBubble(t *testing.T, c c04Case, res *vfResult) {
 		if (delivered > 0 || forwarded > 0) && !(allInvoked && allAccept) {
 			res.violate("C04/delivered-without-all-accept", mi, "%s: delivered=%d forwarded=%d", desc, delivered, forwarded)
 		}
-		if allInvoked && allAccept && (delivered != 1 || forwarded == 0) {
+		// copies refused by a full validation queue or a throttled validator never reach a verdict; if that happened to
+		// every copy, nothing is owed (relevant when no validator applies, so that "all accepted" holds vacuously)
+		throttledCopies, totalCopies := 0, 0
+		for _, k := range copies {
+			totalCopies += k
+		}
+		for _, ev := range n.raw.snapshot() {
+			if ev.Kind == "reject" && ev.MsgID == msgID && (ev.Reason == RejectValidationQueueFull || ev.Reason == RejectValidationThrottled) {
+				throttledCopies++
+			}
+		}
+		if canThrottle && throttledCopies >= totalCopies && totalCopies > 0 && delivered == 0 && forwarded == 0 {
+			res.label("every-copy-throttled")
+		} else if allInvoked && allAccept && (delivered != 1 || forwarded == 0) {
 			res.violate("C04/accepted-not-delivered", mi, "%s: every validator accepted, delivered=%d forwarded to %d peers", desc, delivered, forwarded)
 		}
 		if !anyReject && !allInvoked && !canThrottle && !m.Local {
